@@ -499,6 +499,27 @@ def run(ck):
 
     with ck.section('R05.7'):
         # ------------------------------------------------------------------ R05.7
+        # what wait_init() waits on exists as soon as it can get past its "started" test: in run_forever no
+        # path (M0: explicit raises) leaves between the registration of the task and the creation of the
+        # signal - otherwise a start that fails at once answers wait_init() with an AttributeError instead
+        # of EdzedInvalidState (defect F21)
+        rf7 = circ.methods.get('run_forever')
+        ck.need(R7, rf7 is not None, "Circuit.run_forever not found")
+        g7 = ck.cfg(rf7.fid, 'M0')
+        reg7 = nodes_writing_attr(g7, '_simtask')
+        sig7 = nodes_writing_attr(g7, '_init_done')
+        ck.need(R7, len(reg7) == 1, "run_forever: registration of the simulation task not recognised")
+        if sig7 and any(g7.dominates(s7, reg7[0]) for s7 in sig7):
+            wit7 = None         # created even before the task is registered
+        else:
+            wit7 = g7.path_avoiding(reg7[0], [g7.exit, g7.raise_exit], avoid=sig7, start_successors_only=True) \
+                if sig7 else [reg7[0]]
+        ck.ob(R7, f"{rf7.fid} :: signal exists once the task is registered", bool(sig7) and wit7 is None,
+              "self._init_done is created on every path that follows the registration of the task, before "
+              "anything can fail" if sig7 and wit7 is None else
+              "the start can fail between `self._simtask = ...` and the creation of self._init_done: a "
+              "concurrent wait_init() then dies with AttributeError instead of raising EdzedInvalidState",
+              rf7, reg7[0].ast, witness=path_witness(g7, wit7 if sig7 else None))
         wi = circ.methods.get('wait_init')
         ck.need(R7, wi is not None, "Circuit.wait_init not found")
         gw = ck.cfg(wi.fid, 'M1')
